@@ -105,7 +105,7 @@ pub fn profile_for(prop: &str) -> Profile {
             p.w.poll = 4;
             p.w.register = 10;
             p.trig_w = [1, 1, 1, 2, 2, 8, 2, 2, 8, 8, 1];
-            p.entry_w = [4, 2, 5];
+            p.entry_w = [4, 2, 5, 5];
         }
         "C09" => {
             p.name = "ordering";
@@ -222,7 +222,7 @@ fn script(runs: Vec<Vec<Act>>, cyclic: bool) -> Script {
 }
 
 fn prog(name: String, scripts: Vec<Script>, ops: Vec<Op>, init: [[Option<u32>; NT]; NE]) -> Program {
-    Program { name, scripts, ops, fuel: 40, init_comps: init }
+    Program { name, scripts, ops, fuel: 40, init_comps: init, frame_order: 0 }
 }
 
 const ALL_COMPS: [[Option<u32>; NT]; NE] = [[Some(0), Some(0)], [Some(0), Some(0)], [Some(0), Some(0)], [Some(0), Some(0)]];
@@ -485,6 +485,47 @@ pub fn family_removals() -> Vec<Program> {
                     ops.push(sys(vec![Act::Mark]));
                     out.push(prog(format!("removals-h{hi}-g{gi}-{:?}-p{place}", entry), scripts, ops, ALL_COMPS));
                 }
+            }
+        }
+    }
+    out
+}
+
+/// C08 app-mode family: in one `App::update()` one ordinary system registers reactors, another causes removals /
+/// despawns, a third re-inserts -- under every relative order of the three systems; further frames follow.
+pub fn family_removals_app() -> Vec<Program> {
+    let mut out = vec![];
+    let causes: Vec<Vec<Act>> = vec![
+        vec![Act::Remove(0, 0)],
+        vec![Act::DespawnEnt(0)],
+        vec![Act::Remove(0, 0), Act::Remove(1, 0)],
+        vec![Act::Remove(0, 0), Act::DespawnEnt(0)],
+    ];
+    let regs: Vec<Act> = vec![
+        reg(Mode::Persistent, vec![Trig::Rem(0), Trig::ERem(0, 0), Trig::Desp(0)], 0),
+        reg(Mode::Cleanup, vec![Trig::Desp(0), Trig::ERem(1, 0)], 0),
+    ];
+    for (ci, cause) in causes.iter().enumerate() {
+        for order in 0..6u8 {
+            for pre_registered in [false, true] {
+                // frame actions are dealt round-robin to the three systems: index i -> system i % 3
+                let n = cause.len().max(regs.len());
+                let mut frame = vec![];
+                for i in 0..n {
+                    frame.push(if pre_registered { Act::Mark } else { regs.get(i).cloned().unwrap_or(Act::Mark) });
+                    frame.push(cause.get(i).cloned().unwrap_or(Act::Mark));
+                    frame.push(if i == 0 { Act::Insert(2, 0, 5) } else { Act::Remove(2, 0) });
+                }
+                let mut ops = vec![];
+                if pre_registered {
+                    ops.push(sys(regs.clone()));
+                }
+                ops.push(Op { entry: Entry::Frame, acts: frame });
+                ops.push(Op { entry: Entry::Frame, acts: vec![Act::Mark, Act::Insert(0, 0, 1), Act::Remove(2, 0)] });
+                ops.push(Op { entry: Entry::Frame, acts: vec![Act::Remove(0, 0), Act::Mark, Act::Mark] });
+                let mut p = prog(format!("removals-app-c{ci}-order{order}-pre{pre_registered}"), vec![script(vec![], false)], ops, ALL_COMPS);
+                p.frame_order = order;
+                out.push(p);
             }
         }
     }
@@ -840,7 +881,11 @@ pub fn directed_for(prop: &str, thorough: bool) -> Vec<Program> {
         "C05" => family_listeners(),
         "C06" => family_revocation(),
         "C07" => family_lifetime(),
-        "C08" => family_removals(),
+        "C08" => {
+            let mut v = family_removals();
+            v.extend(family_removals_app());
+            v
+        }
         "C09" => {
             let mut v = family_recursion();
             v.extend(family_sequences(2, &seq_kinds, "c09"));
